@@ -216,7 +216,7 @@ func main() {
 	if v := c.IsReplay(); v != nil {
 		c.RunReplay(v)
 	}
-	c.Rule = "every schedule within the deviation bound of each scenario (2-3 clients with colliding batches over ids {a,b}, a reader thread holding 1-2 readers, safe and unsafe mode; +rev = the same scenario around the reverse-priority default scheduler); an execution is non-trivial/distinct by its recorded call/return history (distinct_nontrivial = distinct histories)"
+	c.Rule = "every schedule within the deviation bound of each scenario (2-3 clients with colliding batches over ids {a,b}, a reader thread holding 1-2 readers, safe and unsafe mode; +rev / +rr = the same scenario around the reverse-priority / round-robin default scheduler); an execution is non-trivial/distinct by its recorded call/return history (distinct_nontrivial = distinct histories)"
 	c.Explanation = "stateless exploration of the real bluge writer under a controlled scheduler; each history decided by porcupine; states = distinct schedule prefixes (choice-tree nodes), transitions = scheduler steps, traces_validated_against_impl = executions (all run on the implementation itself, no separate model)"
 	c.Assumptions = []string{
 		"schedules further than the stated deviation bound from the default scheduler are not explored",
@@ -224,7 +224,10 @@ func main() {
 		"storage is the crashfs model of FileSystemDirectory (bound to the real directory by C13 and the C02/C03 conformance replay)",
 	}
 	budget := c.PickD(150*time.Second, 20*time.Minute)
-	names := []string{"uu", "ud", "id", "lm", "uu+rev", "lm+rev", "2x2", "3c"}
+	names := []string{"uu", "ud", "id", "lm", "uu+rev", "lm+rev", "uu+rr", "2x2", "3c"}
+	if c.Thorough() {
+		names = append(names, "lm+rr", "ud+rr")
+	}
 	if os.Getenv("VERIF_ONLY") != "" {
 		names = strings.Split(os.Getenv("VERIF_ONLY"), ",")
 	}
@@ -238,7 +241,7 @@ func main() {
 				per = 2 * time.Second
 			}
 			bound := 2
-			if !c.Thorough() && ((mode == "unsafe" && n == "2x2") || n == "3c" || n == "lm" || strings.HasSuffix(n, "+rev")) {
+			if !c.Thorough() && ((mode == "unsafe" && n == "2x2") || n == "3c" || n == "lm" || strings.HasSuffix(n, "+rev") || (strings.HasSuffix(n, "+rr") && n != "uu+rr")) {
 				bound = 1 // quick tier: the two largest scenarios are explored to d<=1 in unsafe mode
 			}
 			if c.Thorough() {
@@ -247,6 +250,9 @@ func main() {
 			param := n + "/" + mode
 			if strings.HasSuffix(n, "+rev") {
 				param = strings.TrimSuffix(n, "+rev") + "/" + mode + "+rev"
+			}
+			if strings.HasSuffix(n, "+rr") {
+				param = strings.TrimSuffix(n, "+rr") + "/" + mode + "+rr"
 			}
 			st := explore.Explore(explore.Config{Scenario: "c05", Param: param, Bound: bound, Budget: per})
 			c.AddExplore(st)
